@@ -45,151 +45,223 @@ def _const_square_index(e):
     e = strip_refs(e)
     if e[0] == "index" and e[1][0] == "index" and e[2][0] == "const" and e[1][2][0] == "const":
         base = strip_refs(e[1][1])
+        while base[0] == "field" and base[2] == "board" and base[1][0] in ("ref", "deref"):
+            base = ("field", strip_refs(base[1]), "board")
         if base[0] == "field" and base[2] == "board":
             return (e[1][2][1], e[2][1])
     return None
 
 
+def _primitive(name):
+    """Functions whose meaning the oracle speaks about directly (not executed symbolically)."""
+    from wa.expr import PURE
+    return name in PURE or name in (IS_CHECK, ICC)
+
+
 def r1_2(ctx):
+    """can_castle(board, R) for each right R, by symbolic execution of the test specialised to R (the
+    dispatch `match`, per-right functions, a table-driven merged function with `all` / `any` over
+    constant column tables all execute to the same loop-free paths): the paths that answer `true`
+    must have decided exactly: R's own flag, the between squares empty, not in check, the crossed and
+    landing squares unattacked."""
+    from wa.itermodel import xbody
+    from wa.symex import SymEx, erase
+    from wa.pathsym import cond_truth
     f = ctx.facts
-    disp = dispatch(f)
-    ctx.ob("can_castle:dispatch", set(disp) == set(chess.CASTLING), "src/move_generation.rs", "can_castle dispatches %s" % {k: v.split("::")[-1] for k, v in disp.items()})
-    for right, fn in sorted(disp.items()):
-        b = f.body(fn)
-        ctx.note_fn(fn)
-        ex = Exprs(b)
+    b = xbody(f, CAN)
+    ctx.note_fn(CAN)
+    bp = [i for i in range(1, b.arg_count + 1) if b.local_ty(i) == "&board::BoardState"]
+    tp = [i for i in range(1, b.arg_count + 1) if "CastlingType" in b.local_ty(i)]
+    if len(bp) != 1 or len(tp) != 1:
+        raise ShapeNotRecognised("can_castle(board, castling type) parameters not found")
+    bp, tp = bp[0], tp[0]
+    fmt = lambda ss: sorted(chess.name(x) if 2 <= x[0] <= 9 and 2 <= x[1] <= 9 else str(x) for x in ss)
+    for right in sorted(chess.CASTLING):
         kf, kt, rf, rt, between, transit = chess.CASTLING[right]
         colour = chess.RIGHT_COLOUR[right]
-        trues = [loc for loc, st in b.iter_stmts() if st["k"] == "assign" and st["place"]["local"] == 0 and not st["place"]["proj"]
-                 and ex.rvalue(st["rv"], loc) == ("const", True)]
-        others = [loc for loc, st in b.iter_stmts() if st["k"] == "assign" and st["place"]["local"] == 0 and not st["place"]["proj"]
-                  and ex.rvalue(st["rv"], loc) not in (("const", True), ("const", False))]
-        short = fn.split("::")[-1]
-        if len(trues) != 1 or others:
-            ctx.ob("%s:shape" % short, False, b.file, "result is not a single `true` guarded by early `return false`s", reason="shape-not-recognised")
+        tv = ("agg", "move_generation::CastlingType", right, ())
+        if b.local_ty(tp).startswith("&"):
+            tv = ("ref", tv)
+        sx = SymEx(f, inline=lambda n: f.has_body(n) and not _primitive(n), body_of=lambda n: xbody(f, n))
+        paths = [p for p in sx.run(b, 0, {tp: tv}) if p.end == "return"]
+        for fid, fe in sx.frames.items():
+            ctx.note_fn(fe.b.name)
+        key = "can_castle(%s)" % right
+        trues = []
+        for p in paths:
+            r = p.ret
+            if r == ("const", True):
+                trues.append((p, list(p.conds)))
+            elif r == ("const", False):
+                continue
+            elif r is not None and r[0] == "un" and r[1] == "Not":
+                trues.append((p, list(p.conds) + [(r[2], [0], False, [0, 1])]))
+            elif r is not None:
+                trues.append((p, list(p.conds) + [(r, [1], False, [0, 1])]))
+        if not trues:
+            ctx.ob("%s:shape" % key, False, b.file, "no path answers `true` for %s" % right, reason="shape-not-recognised")
             continue
-        tloc = trues[0]
-        flag_ok = False
-        empties, attacked, check_col = set(), set(), None
-        unknown = []
-        for d, vals, excl, s, tg in dominating_facts(b, ex, tloc[0]):
-            truth = True if ((vals is None and excl == [0]) or vals == [1]) else (False if vals == [0] else None)
-            d0 = strip_refs(d)
-            if d0[0] == "field" and d0[2] in FLAG_OF.values():
-                if truth and d0[2] == FLAG_OF[right]:
-                    flag_ok = True
+        summaries = set()
+        where = b.where(b.term_loc(trues[0][0].end_bb))
+        for p, conds in trues:
+            flags, empties, attacked, checks, unknown = set(), set(), set(), set(), []
+            for c in conds:
+                d0 = erase(c[0])
+                truth = cond_truth(c)
+                if d0[0] == "field" and d0[2] in FLAG_OF.values() and d0[1] == ("arg", bp):
+                    if truth:
+                        flags.add(d0[2])
+                    else:
+                        unknown.append("flag %s=%s" % (d0[2], truth))
+                elif d0[0] == "call" and d0[1] == "board::Square::is_empty":
+                    sq = _const_square_index(d0[2][0])
+                    if sq and truth and d0[2][0][1][1][1] == ("arg", bp):
+                        empties.add(sq)
+                    else:
+                        unknown.append("is_empty(%s)=%s" % (show_expr(d0[2][0], b)[:40], truth))
+                elif d0[0] == "call" and d0[1] == IS_CHECK:
+                    c_ = d0[2][1]
+                    if truth is False and c_[0] == "agg" and d0[2][0] == ("arg", bp):
+                        checks.add(c_[2])
+                    else:
+                        unknown.append("is_check(%s)=%s" % (show_expr(c_, b), truth))
+                elif d0[0] == "call" and d0[1] == ICC:
+                    c_ = d0[2][1]
+                    pt = _const_point(d0[2][2])
+                    if truth is False and pt and c_[0] == "agg" and c_[2] == colour and d0[2][0] == ("arg", bp):
+                        attacked.add(pt)
+                    else:
+                        unknown.append("is_check_cords(%s, %s)=%s" % (show_expr(c_, b), show_expr(d0[2][2], b)[:30], truth))
                 else:
-                    unknown.append("flag %s=%s" % (d0[2], truth))
-            elif d0[0] == "call" and d0[1] == "board::Square::is_empty":
-                sq = _const_square_index(d0[2][0])
-                if sq and truth:
-                    empties.add(sq)
-                else:
-                    unknown.append("is_empty(%s)=%s" % (show_expr(d0[2][0], b)[:40], truth))
-            elif d0[0] == "call" and d0[1] == IS_CHECK:
-                c = strip_refs(d0[2][1])
-                if truth is False and c[0] == "agg":
-                    check_col = c[2]
-                else:
-                    unknown.append("is_check=%s" % truth)
-            elif d0[0] == "call" and d0[1] == ICC:
-                c = strip_refs(d0[2][1])
-                p = _const_point(d0[2][2])
-                if truth is False and p and c[0] == "agg" and c[2] == colour:
-                    attacked.add(p)
-                else:
-                    unknown.append("is_check_cords(%s, %s)=%s" % (show_expr(c, b), show_expr(d0[2][2], b)[:30], truth))
-            else:
-                unknown.append(show_expr(d0, b)[:50])
-        fmt = lambda ss: sorted(chess.name(x) if 2 <= x[0] <= 9 and 2 <= x[1] <= 9 else str(x) for x in ss)
-        ctx.ob("%s:right-flag" % short, flag_ok, b.where(tloc), "castling %s requires its own right flag %s" % (right, FLAG_OF[right]))
+                    unknown.append("%s=%s" % (show_expr(d0, b)[:50], truth if truth is not None else c[1]))
+            summaries.add((frozenset(flags), frozenset(empties), frozenset(checks), frozenset(attacked), tuple(unknown)))
+        if len(summaries) != 1:
+            ctx.ob("%s:no-other-conditions" % key, False, where, "castling %s is allowed under %d different sets of conditions" % (right, len(summaries)))
+            continue
+        flags, empties, checks, attacked, unknown = next(iter(summaries))
+        ctx.ob("%s:right-flag" % key, flags == {FLAG_OF[right]}, where, "castling %s requires its own right flag %s (found %s)" % (right, FLAG_OF[right], sorted(flags)))
         want_e = {chess.sq(x) for x in between}
-        ctx.ob("%s:empty-squares" % short, empties == want_e, b.where(tloc),
+        ctx.ob("%s:empty-squares" % key, set(empties) == want_e, where,
                "squares required empty: %s; the rules require exactly %s (between king and rook)" % (fmt(empties), sorted(between)))
-        ctx.ob("%s:not-in-check" % short, check_col == colour, b.where(tloc), "king must not be in check: is_check(board, %s) false edge (found colour %s)" % (colour, check_col))
+        ctx.ob("%s:not-in-check" % key, set(checks) == {colour}, where, "king must not be in check: is_check(board, %s) false edge (found colour %s)" % (colour, sorted(checks)))
         want_t = {chess.sq(x) for x in transit}
-        ctx.ob("%s:unattacked-squares" % short, attacked == want_t, b.where(tloc),
+        ctx.ob("%s:unattacked-squares" % key, set(attacked) == want_t, where,
                "squares required unattacked by %s's enemy: %s; the rules require exactly %s (crossed and landed on by the king)" % (colour, fmt(attacked), sorted(transit)))
-        ctx.ob("%s:no-other-conditions" % short, not unknown, b.where(tloc), "other conditions on castling: %s" % unknown)
+        ctx.ob("%s:no-other-conditions" % key, not unknown, where, "other conditions on castling: %s" % list(unknown))
 
 
 def r2_6(ctx):
-    an = successor.get(ctx)
+    """Castling successors, per side to move: generate_castling_moves is executed symbolically under
+    the hypothesis board.to_move == C (helpers that build the successor are part of the body, a
+    `match board.to_move` selecting ranks / castling types / descriptors folds to C's arm).  Every
+    successor created on a path is attributed to the right R whose `can_castle(board, R)` answer
+    `true` is common to all paths that create it, and compared with the oracle's squares for R."""
+    from wa.symex import SymEx, erase
+    from wa.pathsym import cond_truth
     f = ctx.facts
-    sites = [s for s in an.sites if s.b.name == GCM]
-    ctx.floor("castling successor sites", len(sites), 4)
+    b = f.body(GCM)
+    ctx.note_fn(GCM)
+    bps = [i for i in range(1, b.arg_count + 1) if b.local_ty(i) == "&board::BoardState"]
+    if len(bps) != 1:
+        raise ShapeNotRecognised("generate_castling_moves(board, ..) parameter not found")
+    bp = bps[0]
+    clone_sites = sorted(bb for bb, t in b.iter_calls(callee=successor.CLONE))
     seen = set()
-    for site in sites:
-        b, ex, L = site.b, site.ex, site.L
-        # which right: the can_castle(board, &V) true edge dominating the clone
-        right = None
-        side = None
-        bp = site.src_local
-        for d, vals, excl, s, tg in dominating_facts(b, ex, site.bb):
-            truth = (vals is None and excl == [0]) or vals == [1]
-            if not truth:
+    nrec = 0
+    for colour in ("White", "Black"):
+        to_move = ("field", ("arg", bp), "to_move")
+        sx = SymEx(f, assume={to_move: ("agg", "board::PieceColor", colour, ())})
+        paths = [p for p in sx.run(b, 0, {}) if p.end == "return"]
+        # successor records: (clone block) -> list over paths of (true can_castle rights so far, events on the object)
+        recs = {}
+        for p in paths:
+            guards = []
+            open_ = {}
+            for ev in p.events:
+                if ev[0] == "cond":
+                    d = erase(ev[2][0])
+                    if d[0] == "call" and d[1] == CAN and cond_truth(ev[2]) is True:
+                        own = d[2][0] == ("arg", bp)
+                        v = d[2][1]
+                        guards.append(v[2] if own and v[0] == "agg" else "?")
+                elif ev[0] == "call":
+                    if ev[2] == successor.CLONE and ev[5] is not None and erase(ev[3][0]) == ("arg", bp):
+                        rec = {"guards": list(guards), "calls": [], "writes": {}, "loc": ev[1]}
+                        open_[ev[5]] = rec
+                        recs.setdefault(ev[1][1], []).append(rec)
+                    else:
+                        a0 = ev[3][0] if ev[3] else None
+                        if a0 is not None and a0[0] == "addr" and a0[2] in open_ and not a0[3]:
+                            open_[a0[2]]["calls"].append(ev)
+                elif ev[0] == "write" and ev[3] in open_:
+                    open_[ev[3]]["writes"][ev[4][0]] = (ev[1], ev[5])
+        for cbb, lst in sorted(recs.items()):
+            nrec += 1
+            common = set(lst[0]["guards"])
+            for r in lst[1:]:
+                common &= set(r["guards"])
+            sname = "generate_castling_moves:successor#%d" % clone_sites.index(cbb)
+            where = b.where(b.term_loc(cbb))
+            if len(common) != 1 or "?" in common:
+                ctx.ob("%s:guard" % sname, False, where, "castling successor not guarded by exactly one can_castle(board, <right>) (with %s to move: %s)" % (colour, sorted(common)))
                 continue
-            if d[0] == "call" and d[1] == CAN:
-                v = strip_refs(d[2][1])
-                if v[0] == "agg":
-                    right = v[2]
-                own = strip_refs(d[2][0]) == ("arg", bp)
-                if not own:
-                    right = None
-            if d[0] == "bin" and d[1] == "Eq":
-                for x, k in ((strip_refs(d[2]), strip_refs(d[3])), (strip_refs(d[3]), strip_refs(d[2]))):
-                    if k[0] == "agg" and k[1] == "board::PieceColor" and x[0] == "field" and x[2] == "to_move":
-                        side = k[2]
-        if right is None:
-            ctx.ob("%s:guard" % site.name, False, b.where(site.loc), "castling successor not guarded by can_castle(board, <right>)")
-            continue
-        seen.add(right)
-        kf, kt, rf, rt, _, _ = chess.CASTLING[right]
-        colour = chess.RIGHT_COLOUR[right]
-        key = "%s(%s)" % (site.name.split(":")[0], right)
-        ctx.ob(key + ":side-to-move", side == colour, b.where(site.loc), "generated only when %s is to move (found %s)" % (colour, side))
-        calls = [(loc, ev) for loc, evs in sorted(site.events.items()) for ev in evs if ev[0] == "call"]
-        writes = {ev[1][0]: (loc, ev[2]) for loc, evs in site.events.items() for ev in evs if ev[0] == "write"}
-        takes = set()
-        moves = []
-        unset = False
-        for loc, ev in calls:
-            if ev[1] == successor.TAKE_AWAY and ev[2] == 0:
-                v = strip_refs(ex.call_args(loc[0])[1])
-                takes.add(v[2] if v[0] == "agg" else "?")
-            elif ev[1] == successor.MOVE_PIECE and ev[2] == 0:
-                a = ex.call_args(loc[0])
-                moves.append((loc, strip_refs(a[1]), strip_refs(a[2])))
-            elif ev[1] == successor.UNSET_EP:
-                unset = True
-        want_takes = {r for r, c in chess.RIGHT_COLOUR.items() if c == colour}
-        ctx.ob(key + ":both-rights-removed", takes == want_takes, b.where(site.loc), "rights removed: %s; must be %s" % (sorted(takes), sorted(want_takes)))
-        ctx.ob(key + ":ep-cleared", unset, b.where(site.loc), "en-passant target cleared")
-        kfield = "%s_king_location" % colour.lower()
-        kw = writes.get(kfield)
-        kdest = _const_point(kw[1]) if kw else None
-        ctx.ob(key + ":king-destination", kdest == chess.sq(kt), b.where(kw[0]) if kw else b.where(site.loc),
-               "king cache set to %s; the rules put the king on %s" % (chess.name(kdest) if kdest and all(2 <= v <= 9 for v in kdest) else kdest, kt))
-        lm = writes.get("last_move")
-        lmv = None
-        if lm:
-            e = strip_refs(lm[1])
-            if e[0] == "agg" and e[2] == "Some" and e[3][0][0] == "agg":
-                pr = e[3][0][3]
-                lmv = (_const_point(pr[0]), _const_point(pr[1]))
-        ctx.ob(key + ":move-descriptor", lmv == (chess.sq(kf), chess.sq(kt)), b.where(lm[0]) if lm else b.where(site.loc),
-               "last_move is %s; must be the king's two-square move %s%s" % (
-                   tuple(chess.name(p) if p else "?" for p in lmv) if lmv else lmv, kf, kt))
-        # the two move_piece calls: king from the parent's cached square to the successor's cached square; rook per oracle
-        okk = okr = False
-        for loc, a, c in moves:
-            if a[0] == "field" and a[2] == kfield and root_local(a) == bp and c[0] == "field" and c[2] == kfield and root_local(c) == L:
-                okk = True
-            pa, pc = _const_point(a), _const_point(c)
-            if pa == chess.sq(rf) and pc == chess.sq(rt):
-                okr = True
-        ctx.ob(key + ":king-moved", okk, b.where(site.loc), "the king is moved from the parent's king square to the destination stored in the successor")
-        ctx.ob(key + ":rook-moved", okr, b.where(site.loc), "the rook is moved %s->%s (found %s)" % (rf, rt, [
-            (chess.name(_const_point(a)) if _const_point(a) else "?", chess.name(_const_point(c)) if _const_point(c) else "?") for _, a, c in moves if _const_point(a)]))
-        ctx.ob(key + ":two-piece-moves", len(moves) == 2, b.where(site.loc), "%d move_piece calls on the castling successor" % len(moves))
+            right = next(iter(common))
+            seen.add(right)
+            kf, kt, rf, rt, _, _ = chess.CASTLING[right]
+            rcolour = chess.RIGHT_COLOUR[right]
+            key = "generate_castling_moves(%s)" % right
+            ctx.ob(key + ":side-to-move", rcolour == colour, where, "generated only when %s is to move (found reachable with %s to move)" % (rcolour, colour))
+            if rcolour != colour:
+                continue
+            # the same construction on every path
+            shapes = set()
+            for r in lst:
+                takes = set()
+                moves = []
+                unset = False
+                for ev in r["calls"]:
+                    if ev[2] == successor.TAKE_AWAY:
+                        v = erase(ev[3][1])
+                        takes.add(v[2] if v[0] == "agg" else "?")
+                    elif ev[2] == successor.MOVE_PIECE:
+                        moves.append((erase(ev[3][1]), erase(ev[3][2])))
+                    elif ev[2] == successor.UNSET_EP:
+                        unset = True
+                kfield = "%s_king_location" % rcolour.lower()
+                kw = r["writes"].get(kfield)
+                kdest = _const_point(kw[1]) if kw else None
+                lm = r["writes"].get("last_move")
+                lmv = None
+                if lm:
+                    e = erase(lm[1])
+                    if e[0] == "agg" and e[2] == "Some" and e[3] and e[3][0][0] == "agg" and len(e[3][0][3]) == 2:
+                        pr = e[3][0][3]
+                        lmv = (_const_point(pr[0]), _const_point(pr[1]))
+                shapes.add((frozenset(takes), tuple(moves), unset, kdest, lmv))
+            if len(shapes) != 1:
+                ctx.ob(key + ":one-construction", False, where, "the successor is built differently on different paths")
+                continue
+            takes, moves, unset, kdest, lmv = next(iter(shapes))
+            want_takes = {r for r, c in chess.RIGHT_COLOUR.items() if c == rcolour}
+            ctx.ob(key + ":both-rights-removed", set(takes) == want_takes, where, "rights removed: %s; must be %s" % (sorted(takes), sorted(want_takes)))
+            ctx.ob(key + ":ep-cleared", unset, where, "en-passant target cleared")
+            ctx.ob(key + ":king-destination", kdest == chess.sq(kt), where,
+                   "king cache set to %s; the rules put the king on %s" % (chess.name(kdest) if kdest and all(2 <= v <= 9 for v in kdest) else kdest, kt))
+            ctx.ob(key + ":move-descriptor", lmv == (chess.sq(kf), chess.sq(kt)), where,
+                   "last_move is %s; must be the king's two-square move %s%s" % (
+                       tuple(chess.name(p) if p else "?" for p in lmv) if lmv else lmv, kf, kt))
+            kfield = "%s_king_location" % rcolour.lower()
+            okk = okr = False
+            for a, c in moves:
+                # king: from the parent's cached square to the square just stored in the successor
+                if a == ("field", ("arg", bp), kfield) and kdest is not None and _const_point(c) == kdest:
+                    okk = True
+                pa, pc = _const_point(a), _const_point(c)
+                if pa == chess.sq(rf) and pc == chess.sq(rt):
+                    okr = True
+            ctx.ob(key + ":king-moved", okk, where, "the king is moved from the parent's king square to the destination stored in the successor")
+            ctx.ob(key + ":rook-moved", okr, where, "the rook is moved %s->%s (found %s)" % (rf, rt, [
+                (chess.name(_const_point(a)) if _const_point(a) else "?", chess.name(_const_point(c)) if _const_point(c) else "?") for a, c in moves if _const_point(a)]))
+            ctx.ob(key + ":two-piece-moves", len(moves) == 2, where, "%d move_piece calls on the castling successor" % len(moves))
+    ctx.floor("castling successor sites", nrec, 1)
     ctx.ob("generate_castling_moves:all-four", seen == set(chess.CASTLING), GCM, "castling successors generated: %s" % sorted(seen))
